@@ -274,7 +274,11 @@ def execute(case):
     try:
         dexasm.selfcheck(model, raw0, lay0)
     except dexasm.AsmError as e:
-        raise HarnessError(f"generator self-check failed (seed {case['seed']}): {e}")
+        # The self-check parses the generated file with the code under test.  A disagreement is either a generator bug or a
+        # parser that reads a well-formed file wrongly; the generator has been exercised on millions of models, so the case
+        # is not thrown away: the split / order comparison still runs (it needs no ground truth), the disagreement is counted.
+        probe("generator-self-check-disagrees-with-the-parser")
+        log.add("ref", "selfcheck", str(e)[:120])
 
     def unsigned(raw):
         """the SHA-1 signature field left zero, as some tools write it (only the Adler-32 is verified by androguard)"""
